@@ -52,6 +52,152 @@ type c01Row struct {
 		Content string `json:"content"`
 	} `json:"r"`
 	Verdict string `json:"verdict"`
+	// life rows: several writers of one process, open / write / close as separate steps
+	Prior string `json:"prior"`
+	Hist  []struct {
+		W   int    `json:"w"`
+		Api string `json:"api"`
+		Op  string `json:"op"`
+		Pub []bool `json:"pub"`
+	} `json:"hist"`
+}
+
+// lifeWriter: one loose-object writer of a life-cycle history
+type lifeWriter struct {
+	api     string
+	typ     plumbing.ObjectType
+	content []byte
+	id      string
+	w       io.WriteCloser
+	wh      func(plumbing.ObjectType, int64) error
+}
+
+type lifeObj struct {
+	id, typ, api, fmt string
+	content           []byte
+	line              string
+}
+
+// replayLife executes one life-cycle history on the shared storage handle st and returns the objects that
+// the spec says are published (every closed writer, and the prior one).
+func replayLife(f objFormat, st *filesystem.Storage, row *c01Row, n int, line string, div func(class, api, what string)) (out []lifeObj) {
+	defer func() {
+		if p := recover(); p != nil {
+			div("panic", "any", fmt.Sprint(p))
+		}
+	}()
+	types := []plumbing.ObjectType{plumbing.BlobObject, plumbing.TreeObject, plumbing.CommitObject, plumbing.TagObject}
+	mk := func(k int, api string) *lifeWriter {
+		lw := &lifeWriter{api: api, typ: types[(n+k)%4]}
+		lw.content = []byte(fmt.Sprintf("life-cycle history %d writer %d api %s seed %d\n%s", n, k, api, rep.Seed(), strings.Repeat("payload line\n", 10+(n+k)%7)))
+		lw.id = fmt.Sprintf("%x", f.objectID(lw.typ.String(), lw.content))
+		return lw
+	}
+	open := func(lw *lifeWriter) error {
+		var err error
+		switch lw.api {
+		case "raw":
+			lw.w, err = st.RawObjectWriter(lw.typ, int64(len(lw.content)))
+		case "lazy":
+			lw.w, lw.wh, err = st.LazyWriter()
+		}
+		return err
+	}
+	write := func(lw *lifeWriter) error {
+		if lw.wh != nil {
+			if err := lw.wh(lw.typ, int64(len(lw.content))); err != nil {
+				return err
+			}
+		}
+		h := len(lw.content) / 2
+		if _, err := lw.w.Write(lw.content[:h]); err != nil {
+			return err
+		}
+		_, err := lw.w.Write(lw.content[h:])
+		return err
+	}
+	set := func(lw *lifeWriter) error {
+		o := st.NewEncodedObject()
+		o.SetType(lw.typ)
+		o.SetSize(int64(len(lw.content)))
+		ow, _ := o.Writer()
+		ow.Write(lw.content)
+		ow.Close()
+		h, err := st.SetEncodedObject(o)
+		if err == nil && h.String() != lw.id {
+			div("wrong-id", "set", fmt.Sprintf("SetEncodedObject returned %s, the object is %s", h, lw.id))
+		}
+		return err
+	}
+	published := func(lw *lifeWriter) {
+		out = append(out, lifeObj{lw.id, lw.typ.String(), lw.api, f.name, lw.content, line})
+		// the same process reads it back at once
+		h, _ := plumbing.FromHex(lw.id)
+		o, err := st.EncodedObject(plumbing.AnyObject, h)
+		if err != nil {
+			div("gogit-cannot-read", lw.api, fmt.Sprintf("EncodedObject(%s) right after Close: %v", lw.id, err))
+			return
+		}
+		rd, err := o.Reader()
+		var b []byte
+		if err == nil {
+			b, err = io.ReadAll(rd)
+			rd.Close()
+		}
+		if err != nil || o.Type() != lw.typ || !bytes.Equal(b, lw.content) {
+			div("gogit-reads-different", lw.api, fmt.Sprintf("%s read back as %s, %d bytes, err %v; written %s, %d bytes", lw.id, o.Type(), len(b), err, lw.typ, len(lw.content)))
+		}
+	}
+	if row.Prior != "none" {
+		// an earlier writer of this process, closed twice (a checked Close plus a deferred one)
+		p := mk(0, row.Prior)
+		func() {
+			if err := open(p); err != nil {
+				div("open-error", p.api, err.Error())
+				return
+			}
+			defer p.w.Close()
+			if err := write(p); err != nil {
+				div("write-error", p.api, err.Error())
+				return
+			}
+			if err := p.w.Close(); err != nil {
+				div("close-error", p.api, err.Error())
+				return
+			}
+			published(p)
+		}()
+	}
+	ws := map[int]*lifeWriter{}
+	for _, st := range row.Hist {
+		lw := ws[st.W]
+		if lw == nil {
+			lw = mk(st.W, st.Api)
+			ws[st.W] = lw
+		}
+		var err error
+		switch st.Op {
+		case "open":
+			err = open(lw)
+		case "write":
+			err = write(lw)
+		case "set":
+			if err = set(lw); err == nil {
+				published(lw)
+			}
+		case "close":
+			if err = lw.w.Close(); err == nil {
+				published(lw)
+			}
+		case "reclose":
+			_ = lw.w.Close() // a repeated Close may report "already closed"; what matters is that it changes nothing
+		}
+		if err != nil {
+			div(st.Op+"-error", lw.api, fmt.Sprintf("%s of writer %d failed: %v", st.Op, st.W, err))
+			return out
+		}
+	}
+	return out
 }
 
 // c01Content renders a content class; salt makes rows distinct where the class has room for it.
@@ -186,6 +332,8 @@ func c01(args []string) error {
 		content []byte
 	}
 	var rs []readCase
+	var lifeObjs []lifeObj
+	lifeRows := 0
 	n := 0
 	err := rep.ReadNDJSON(args[0], func(line []byte) error {
 		var row c01Row
@@ -194,6 +342,21 @@ func c01(args []string) error {
 		}
 		n++
 		salt := n*7 + int(rep.Seed())*1000
+		if row.Dir == "life" {
+			fn := "sha1"
+			if (n+int(rep.Seed()))%2 == 1 {
+				fn = "sha256"
+			}
+			rp := repos[fn]
+			ln := string(line)
+			r.Eval(len(row.Hist))
+			lifeRows++
+			objs := replayLife(rp.f, rp.st, &row, n, ln, func(class, api, what string) {
+				r.Diverge("life|"+class+"|"+api, fmt.Sprintf("writer life cycle (%s, prior %s): %s", fn, row.Prior, what), map[string]any{"row": json.RawMessage(ln), "format": fn})
+			})
+			lifeObjs = append(lifeObjs, objs...)
+			return nil
+		}
 		if row.Dir == "read" {
 			rp := repos[row.R.Fmt]
 			content := c01Content(row.R.Content, salt)
@@ -467,6 +630,42 @@ func c01(args []string) error {
 			st.Close()
 		}
 	}
+	// ---- life rows: git reads every object a closed writer published (one cat-file --batch per format)
+	for _, f := range []string{"sha1", "sha256"} {
+		var ids []string
+		var sel []lifeObj
+		for _, o := range lifeObjs {
+			if o.fmt == f {
+				ids = append(ids, o.id)
+				sel = append(sel, o)
+			}
+		}
+		if len(ids) == 0 {
+			continue
+		}
+		dir := repos[f].bare
+		got, err := catFile(dir, ids)
+		if err != nil {
+			got = map[string]wantObj{}
+			for _, id := range ids {
+				if one, oerr := catFile(dir, []string{id}); oerr == nil {
+					if g, ok := one[id]; ok {
+						got[id] = g
+					}
+				}
+			}
+		}
+		for _, o := range sel {
+			r.Eval(1)
+			g, ok := got[o.id]
+			switch {
+			case !ok:
+				r.Diverge("life|git-cannot-read|"+o.api, fmt.Sprintf("git cat-file cannot read %s (%s, %d bytes) published by a closed %s writer", o.id, o.typ, len(o.content), o.api), map[string]any{"row": json.RawMessage(o.line), "format": f})
+			case g.typ != o.typ || !bytes.Equal(g.content, o.content):
+				r.Diverge("life|git-reads-different|"+o.api, fmt.Sprintf("git cat-file reads %s as %s, %d bytes; the %s writer wrote %s, %d bytes", o.id, g.typ, len(g.content), o.api, o.typ, len(o.content)), map[string]any{"row": json.RawMessage(o.line), "format": f})
+			}
+		}
+	}
 	// ---- read rows: three-way
 	for _, f := range []string{"sha1", "sha256"} {
 		rp := repos[f]
@@ -526,6 +725,8 @@ func c01(args []string) error {
 	}
 	r.Distinct = n
 	r.Traces = n
+	r.Extra["life_rows"] = lifeRows
+	r.Extra["life_objects"] = len(lifeObjs)
 	r.Extra["write_rows"] = len(ws)
 	r.Extra["read_rows"] = len(rs)
 	r.Extra["git_leg"] = true
